@@ -106,6 +106,7 @@ def build(variant, harness, extra_defs=()):
         os.makedirs(os.path.join(libdir, 'lib'), exist_ok=True)
         os.makedirs(bindir, exist_ok=True)
         inc = ['-I' + os.path.join(REPO, 'include'), '-I' + os.path.join(REPO, 'include_prv')]
+        hinc = inc + ['-I' + os.path.join(REPO, 'src')]
         jobs = []
         for s in LIB_SOURCES:
             o = os.path.join(libdir, 'lib', s + '.o')
@@ -122,7 +123,7 @@ def build(variant, harness, extra_defs=()):
             o = os.path.join(bindir, s[:-2] + '.o')
             hobjs.append(o)
             if not os.path.exists(o):
-                jobs.append([v['cc']] + flags + inc + ['-I' + HARNESS, '-Wall', '-Wextra', '-Wno-unused-parameter', '-c', os.path.join(HARNESS, s), '-o', o])
+                jobs.append([v['cc']] + flags + hinc + ['-I' + HARNESS, '-Wall', '-Wextra', '-Wno-unused-parameter', '-c', os.path.join(HARNESS, s), '-o', o])
 
         def run(cmd):
             r = sh(cmd)
@@ -218,6 +219,30 @@ LEVELS['C19'] = 'fault_enumeration'
 RULES['C19'] = 'closed files: full read mix under the I/O log, 0 writes / no writable open / identical bytes; crash images: see h_crash'
 ASSUME['C19'] = []
 
+
+EXHAUSTIVE = {}
+
+
+def simple_run(harness, name, quick, thorough, props, variant='plain', extra=()):
+    return dict(harness=harness, variant=variant, args=list(extra), quick=quick, thorough=thorough, props=props, name=name)
+
+
+CHECKS['C18'] = [simple_run('h_crc', 'crc', 73, 133, ['C18'])]
+LEVELS['C18'] = 'exploration'
+EXHAUSTIVE['C18'] = True
+RULES['C18'] = 'cases 0-63: every length 0..4096 x every start alignment 0..7 x 7 contents (zeros, ones, ramp, 4 random) - exhaustive over length x alignment; case 64: all 8x256 table entries vs. polynomial + known answers; cases 65-68: random chunk headers through the 28-byte fast path; further cases: random 1-16 MiB buffers. Hardware path and table path (same source built with JLS_OPTIMIZE_CRC_DISABLE, linked side by side) vs. a bit-serial reference. distinct = (len mod 8, length class, alignment)'
+ASSUME['C18'] = ['exhaustive only over length x alignment for lengths <= 4096; contents are sampled', 'the reference is a bit-serial CRC anchored by the CRC-32C check value 0xE3069283']
+
+CHECKS['C20'] = [simple_run('h_stats', 'stats', 5000, 400000, ['C20'])]
+LEVELS['C20'] = 'exploration'
+RULES['C20'] = 'case = sequence (length class, shape of 6, magnitude 1e-30..1e30, f32-representable or not); compute_f64/_f32, repeated add, every split point (n<=64) or 24 random ones, random binary groupings, in-place chains; count/min/max exact, mean within 8 n eps max|x|, s within 8 n eps sum(x^2); aliasing and empty-operand identity bit-exact; distinct = (length class, shape, magnitude class, f32)'
+ASSUME['C20'] = ['reference in long double (64-bit mantissa) two-pass arithmetic']
+
+CHECKS['C08'] = [simple_run('h_mrb', 'mrb', 17 + 40, 33 + 2000, ['C08'])]
+LEVELS['C08'] = 'exploration'
+RULES['C08'] = 'cases 0..k: breadth-first exploration of ALL operation sequences (alloc of every size 0..capacity, pop, peek) of the real queue for one small capacity each (quick 8..24, thorough 8..40), memoised on (head, tail, count, queued regions); remaining cases: 20k-100k random operations on capacities 49..65536 with sizes biased to 0, 1 and within 16 of the capacity. Oracle: reference deque built from the returned pointers; distinct = exploration unit (capacity / random configuration)'
+ASSUME['C08'] = ['"fits contiguously" is judged with a reserve of 12 bytes beyond the 4-byte length prefix (the figure in the property quantifier); the wrap marker is modelled as a queue item that makes the bytes up to the end of the buffer unusable until consumed',
+                 'exhaustive only for the small capacities listed in coverage; a capacity whose state space exceeds the state limit is reported as truncated, not complete']
 
 # ------------------------------------------------------------------------------------------
 def load_known():
@@ -391,7 +416,7 @@ def run_check(prop, tier, seed, jobs, replay=None):
         'known_findings_observed': {k[1]: violn[k] for k in seen_known},
         'inconclusive_cases': inconclusive,
         'abnormal_terminations': abnormal,
-        'exhaustive': False,
+        'exhaustive': bool(EXHAUSTIVE.get(prop, False)),
         'runs': [{'mode': r['name'], 'harness': r['harness'], 'build': r['variant'], 'cases': r[tier]} for r in runs],
     }
     if notes:
